@@ -12,7 +12,10 @@
    nesting, order, kinds, widths, bit ranges, signals; vcd_fst_same_tree: hence the two hierarchies are equal up to
    component and direction (hier_run_erase, Proofs/EraseProofs.v: the builder never looks at either, it only stores them).  It composes C09's handle_decls_direct (header text -> calls) and
    C10's fst_design_calls (entries -> calls).
-   NOT proved: the GHW hierarchy (its section reader is not modelled) and that the GHW section reader / vector buffer
+   shaped_calls_same_tree: the same principle for the shape alone (names, nesting, order, widths, ranges, signals), for any two
+   front ends - the form in which it applies to the GHW loader, whose kinds and type names differ from the other two formats'.
+   NOT proved: that the GHW hierarchy reader (modelled and tied to the code: C11) makes calls of the same shape as the VCD and
+   FST front ends for the same declarations, and that the GHW section reader / vector buffer
    delivers the packed form of what the file encodes (time_step_spec, ve_set_spec and ve_get_spec, Properties/C11.v, are
    the per-step facts), the time tables of whole files; those are decided by the three-format file generators (MANIFEST
    level_note). *)
@@ -96,6 +99,21 @@ Check (eq_refl : erase_scope = fun s =>
   mk_scope (sc_name s) None (sc_tpe s) (sc_decl s) (sc_child s) (sc_parent s) (sc_next s)).
 Check (eq_refl : erase_var = fun v =>
   mk_var (v_name v) (v_tpe v) 0 (v_enc v) (v_index v) (v_signal v) (v_type_name v) (v_parent v) (v_next v)).
+
+(* for any two front ends (GHW included): builder calls that agree in shape - names, nesting, order, encodings and widths, bit
+   ranges, signals - build hierarchies that agree in shape, whatever the kinds, components, directions and type names *)
+Check shaped_calls_same_tree :
+  forall ops1 ops2 b1 b2,
+  map shape_op ops1 = map shape_op ops2 ->
+  hier_run hb_new ops1 = Ok b1 -> hier_run hb_new ops2 = Ok b2 ->
+  shape_b b1 = shape_b b2.
+Check hier_run_shape : forall ops b, hier_run (shape_b b) (map shape_op ops) = omap shape_b (hier_run b ops).
+Check (eq_refl : shape_op = fun op =>
+  match op with
+  | HScope nm _ _ _ f => HScope nm None 0 None f
+  | HVar nm _ _ e i s _ => HVar nm 0 0 e i s None
+  | HPop => HPop
+  end).
 Check enc_classes_agree :
   forall t raw w, t < 256 -> t <> 4 -> n_get fst_var_tab t = Some raw -> var_enc t w = vcd_enc raw w.
 Check same_calls_example.
@@ -126,6 +144,8 @@ Check (eq_refl : same_op = fun a b =>
 Print Assumptions vcd_fst_same_calls.
 Print Assumptions vcd_fst_same_tree.
 Print Assumptions hier_run_erase.
+Print Assumptions shaped_calls_same_tree.
+Print Assumptions hier_run_shape.
 Print Assumptions enc_classes_agree.
 Print Assumptions vcd_fst_same_report.
 Print Assumptions vcd_fst_same_report_rs.
